@@ -301,6 +301,9 @@ def check(prop: str, tier: str, run: Run, replay_case=None):
     pre = prop + "."
     embs3 = [E0.name, E1.name, E2.name]
     if replay_case is not None:
+        if replay_case.get("leg") == "T":
+            from . import trace_pipeline
+            return trace_pipeline.replay(run, replay_case)
         _init(); _init_service()
         fn = replay_service if replay_case["detail"].get("level") == "service" else replay_component
         out, _ = fn((replay_case["case"], replay_case["detail"]["emb"]))
@@ -368,5 +371,7 @@ def check(prop: str, tier: str, run: Run, replay_case=None):
         "C05": "as C01; non-trivial = some stream has a non-zero contribution (scales differ) or rows were inserted after the cascade",
         "C06": "as C01; non-trivial = several zero breakpoints, a threshold problem, or multi-zone",
     }[prop]
+    from . import trace_pipeline
+    trace_pipeline.leg_t(run, prop, tier)
     if tier == "thorough":
         mutant_selftest(run)
